@@ -37,6 +37,10 @@ macro_rules! impl_bits {
                 #[inline]
                 fn clear_high_bits(&self, n: usize) -> Self {
                     debug_assert!(n <= Self::LEN);
+                    // a shift by the full width overflows: clearing all `LEN` bits leaves none
+                    if n >= Self::LEN {
+                        return 0;
+                    }
                     *self & ((u64::MAX as $ty) >> n)
                 }
             }
@@ -97,6 +101,10 @@ impl BitMask for NeonBits {
     #[inline]
     fn clear_high_bits(&self, n: usize) -> Self {
         debug_assert!(n <= Self::LEN);
+        // a shift by the full width overflows: clearing all `LEN` lanes leaves none
+        if n >= Self::LEN {
+            return Self(0);
+        }
         Self(self.0 & u64::MAX >> (n * 4))
     }
 }
